@@ -23,16 +23,21 @@ class PynencError(Exception):
 
     def _to_json_dict(self) -> dict[str, Any]:
         """:return: a json serializable dictionary"""
+        if not self.__dict__ and self.args:
+            # plain errors such as RetryError("reason", 3) keep their data in args only
+            return {"__args__": list(self.args)}
         return self.__dict__
 
     @classmethod
     def _from_json_dict(cls, json_dict: dict[str, Any]) -> "PynencError":
         """:return: a new error from the serialized json compatible dictionary"""
+        if "__args__" in json_dict:
+            return cls(*json_dict["__args__"])
         return cls(**json_dict)
 
     def to_json(self) -> str:
         """:return: the serialized error"""
-        return json.dumps(self._to_json_dict())
+        return json.dumps(self._to_json_dict(), default=repr)
 
     @classmethod
     def from_json(cls, error_name: str, serialized: str) -> "PynencError":
